@@ -766,7 +766,12 @@ func c10r3(c *Ctx) {
 					o.OK("table: " + why)
 				} else if old, why, ok := c10RenamedTypeEntry(p, key); ok {
 					o.OK("table (type of entry " + old + " was renamed): " + why)
+				} else if local, why := c10RecvWriteIsPathLocal(p, s, fn, root, fields, kind != "store" || len(fields) > 1 || strings.ContainsAny(path[min(1, len(path)):], ".[")); local {
+					o.OK("the receiver does not outlive the reconcile: " + why)
 				} else {
+					if why != "" {
+						o.Note("receiver not provably allocated on the reconcile path: " + why)
+					}
 					o.Require("a frozen-table entry for " + key)
 					o.Fail("%s of %s%s on a reconcile path (reachable: %s) writes state that outlives the reconcile and is not in the frozen table: progress kept only in memory is lost on restart", kind, root, path, pathTo(s.via, fn))
 				}
@@ -826,4 +831,386 @@ func c10r3(c *Ctx) {
 	if n < 2 {
 		c.AnchorLost(fmt.Sprintf("merge patches of metadata.finalizers (found %d, 2 confirmed: EnsureFinalizer, RemoveFinalizer)", n))
 	}
+}
+
+// ---------------------------------------------------------------------------------------------
+// Receivers that are allocated on the reconcile path
+//
+// A store through the method receiver writes state that outlives the reconcile only when the
+// receiver does: the controllers, reconcilers and caches wired at start-up. A method of an object
+// that every caller on a reconcile path allocates afresh (`inc := &includer{…}; f["include"] =
+// inc.include`) writes memory that is as short-lived as a local variable captured by a closure —
+// which is the shape such code has before the closure is turned into a method.
+
+type c10Fresh struct {
+	p     *Program
+	s     *c10Scope
+	bound map[*ssa.Function][]*ssa.MakeClosure // method -> closures that bind it as a method value
+	dyn   map[*ssa.Function]string             // method -> other dynamic use (method expression)
+	ifc   map[string]bool                      // named types converted to an interface somewhere
+}
+
+var c10FreshCache = map[*Program]*c10Fresh{}
+
+func c10FreshOf(p *Program, s *c10Scope) *c10Fresh {
+	if x := c10FreshCache[p]; x != nil {
+		return x
+	}
+	x := &c10Fresh{p: p, s: s, bound: map[*ssa.Function][]*ssa.MakeClosure{}, dyn: map[*ssa.Function]string{}, ifc: map[string]bool{}}
+	for _, f := range p.Funcs {
+		for _, b := range f.Blocks {
+			for _, in := range b.Instrs {
+				if mi, ok := in.(*ssa.MakeInterface); ok {
+					t := mi.X.Type()
+					if pt, isP := t.Underlying().(*types.Pointer); isP {
+						t = pt.Elem()
+					}
+					x.ifc[namedTypeString(t)] = true
+				}
+				var ops []*ssa.Value
+				for _, o := range in.Operands(ops) {
+					if o == nil || *o == nil {
+						continue
+					}
+					g, ok := (*o).(*ssa.Function)
+					if !ok || g.Synthetic == "" || strings.HasPrefix(g.Synthetic, "instance of") {
+						continue
+					}
+					obj, isFn := g.Object().(*types.Func)
+					if !isFn || obj == nil {
+						continue
+					}
+					decl := p.SSA.FuncValue(obj)
+					if decl == nil {
+						continue
+					}
+					if mc, isMC := in.(*ssa.MakeClosure); isMC && mc.Fn == ssa.Value(g) && len(g.FreeVars) == 1 && len(mc.Bindings) == 1 {
+						x.bound[decl] = append(x.bound[decl], mc)
+					} else {
+						x.dyn[decl] = "used as a method expression at " + p.IPos(in)
+					}
+				}
+			}
+		}
+	}
+	c10FreshCache[p] = x
+	return x
+}
+
+func (x *c10Fresh) inScope(f *ssa.Function) bool {
+	for ; f != nil; f = f.Parent() {
+		if x.s.reach[f] {
+			return true
+		}
+	}
+	return false
+}
+
+// c10RecvWriteIsPathLocal: the write in fn goes through the receiver of the method that fn is (or is
+// a function literal of), and that receiver is always an object allocated on the reconcile path.
+func c10RecvWriteIsPathLocal(p *Program, s *c10Scope, fn *ssa.Function, root string, fields []stateField, throughRef bool) (bool, string) {
+	if !strings.HasPrefix(root, "recv:") || len(fields) == 0 {
+		return false, ""
+	}
+	m := fn
+	for m.Parent() != nil {
+		m = m.Parent()
+	}
+	if m.Signature.Recv() == nil || len(m.Params) == 0 || "recv:"+namedTypeString(m.Params[0].Type()) != root {
+		return false, ""
+	}
+	x := c10FreshOf(p, s)
+	ok, why := x.recvPathLocal(m)
+	if !ok {
+		return false, why
+	}
+	if throughRef {
+		// the written memory is not part of the object itself but reached through the pointer, map
+		// or slice held in its field: whatever is put into that field must be path-local as well
+		if why2 := x.fieldHoldsState(fields[0]); why2 != "" {
+			return false, why2
+		}
+		why += "; " + fields[0].Name + " only holds memory created on the path"
+	}
+	return true, why
+}
+
+// fieldHoldsState: some store into the field puts memory there that outlives the activation (a
+// package-level variable, memory reached from another method's receiver), or cannot be judged.
+// Returns "" when every store into the field is path-local.
+func (x *c10Fresh) fieldHoldsState(f stateField) string {
+	p := x.p
+	n := 0
+	for _, g := range p.productFuncs() {
+		for _, b := range g.Blocks {
+			for _, in := range b.Instrs {
+				st, ok := in.(*ssa.Store)
+				if !ok {
+					continue
+				}
+				if namedTypeString(st.Val.Type()) == f.Owner {
+					if _, isStruct := st.Val.Type().Underlying().(*types.Struct); isStruct {
+						if _, isLoad := st.Val.(*ssa.UnOp); isLoad {
+							return "a whole " + f.Owner + " is copied at " + p.IPos(st)
+						}
+					}
+				}
+				fa, ok := st.Addr.(*ssa.FieldAddr)
+				if !ok || namedTypeString(fa.X.Type()) != f.Owner || fieldName(fa.X.Type(), fa.Field) != f.Name {
+					continue
+				}
+				n++
+				if why := x.valueIsState(st.Val, g, 0); why != "" {
+					return "field " + f.Name + " is set to " + why + " at " + p.IPos(st)
+				}
+			}
+		}
+	}
+	if n == 0 {
+		return "no assignment of field " + f.Name + " of " + f.Owner + " found"
+	}
+	return ""
+}
+
+// valueIsState: v (a map, slice or pointer) denotes memory that outlives the activation of g.
+func (x *c10Fresh) valueIsState(v ssa.Value, g *ssa.Function, depth int) string {
+	p := x.p
+	for _, pv := range p.possibleValues(stripConv(v)) {
+		pv = stripConv(pv)
+		if root, path, _ := stateRoot(g, pv, true); root != "" {
+			return root + path
+		}
+		prm, isPrm := pv.(*ssa.Parameter)
+		if !isPrm {
+			continue
+		}
+		if depth > 2 || g.Parent() != nil || p.addressTaken(g) {
+			return "a parameter of " + shortFuncID(g) + " that is not tracked"
+		}
+		idx := -1
+		for i, q := range g.Params {
+			if q == prm {
+				idx = i
+			}
+		}
+		for _, cl := range p.callersOf(g) {
+			if idx < 0 || idx >= len(cl.Common.Args) {
+				return "a parameter of " + shortFuncID(g) + " that is not tracked"
+			}
+			if why := x.valueIsState(cl.Common.Args[idx], cl.Fn, depth+1); why != "" {
+				return why
+			}
+		}
+	}
+	return ""
+}
+
+// recvPathLocal: every receiver with which the method m is entered on a reconcile path is an object
+// allocated within the reachable set that is not stored into longer-lived memory.
+func (x *c10Fresh) recvPathLocal(m *ssa.Function) (bool, string) {
+	if m.Signature.Recv() == nil || len(m.Params) == 0 {
+		return false, "not a method"
+	}
+	if _, isPtr := m.Params[0].Type().Underlying().(*types.Pointer); !isPtr {
+		return false, "value receiver"
+	}
+	return x.paramFresh(m, 0, 0, map[*ssa.Parameter]bool{})
+}
+
+// paramFresh: parameter idx of g is, at every entry on a reconcile path, a fresh path-local object.
+func (x *c10Fresh) paramFresh(g *ssa.Function, idx, depth int, seen map[*ssa.Parameter]bool) (bool, string) {
+	p := x.p
+	if idx >= len(g.Params) {
+		return false, "parameter not found"
+	}
+	prm := g.Params[idx]
+	if seen[prm] {
+		return true, "" // a cycle adds no new origin
+	}
+	seen[prm] = true
+	if depth > 6 {
+		return false, "call chain too deep"
+	}
+	if g.Parent() != nil {
+		return false, shortFuncID(g) + " is a function literal: its arguments are not tracked"
+	}
+	if why, isDyn := x.dyn[g]; isDyn {
+		return false, shortFuncID(g) + " is " + why
+	}
+	if g.Signature.Recv() != nil {
+		t := g.Params[0].Type()
+		if pt, isP := t.Underlying().(*types.Pointer); isP {
+			t = pt.Elem()
+		}
+		if x.ifc[namedTypeString(t)] {
+			return false, namedTypeString(t) + " is converted to an interface: " + shortFuncID(g) + " may be invoked on a value that is not tracked"
+		}
+	} else if p.addressTaken(g) {
+		return false, shortFuncID(g) + " is used as a value"
+	}
+	n := 0
+	var notes []string
+	for _, cl := range p.callersOf(g) {
+		if !x.inScope(cl.Fn) {
+			continue // not on a reconcile path
+		}
+		if staticCallee(cl.Common) == nil || idx >= len(cl.Common.Args) {
+			return false, "call at " + p.IPos(cl.Instr) + " is not understood"
+		}
+		n++
+		ok, why := x.valueFresh(cl.Common.Args[idx], cl.Fn, depth+1, seen)
+		if !ok {
+			return false, why
+		}
+		notes = append(notes, why)
+	}
+	if idx == 0 {
+		for _, mc := range x.bound[g] {
+			if !x.inScope(mc.Parent()) {
+				continue
+			}
+			n++
+			ok, why := x.valueFresh(mc.Bindings[0], mc.Parent(), depth+1, seen)
+			if !ok {
+				return false, why
+			}
+			notes = append(notes, why)
+		}
+	}
+	if n == 0 {
+		return false, "no static use of " + shortFuncID(g) + " on a reconcile path was found"
+	}
+	return true, c10JoinNotes(notes)
+}
+
+func c10JoinNotes(notes []string) string {
+	var out []string
+	for _, n := range uniqStrings(notes) {
+		if n != "" {
+			out = append(out, n)
+		}
+	}
+	return strings.Join(out, "; ")
+}
+
+// valueFresh: every value v can hold in g is a fresh path-local object.
+func (x *c10Fresh) valueFresh(v ssa.Value, g *ssa.Function, depth int, seen map[*ssa.Parameter]bool) (bool, string) {
+	p := x.p
+	if depth > 6 {
+		return false, "call chain too deep"
+	}
+	var notes []string
+	for _, pv := range p.possibleValues(stripConv(v)) {
+		pv = stripConv(pv)
+		switch o := pv.(type) {
+		case *ssa.Alloc:
+			if !x.inScope(g) {
+				return false, "allocated outside of the reconcile paths at " + p.Pos(o.Pos())
+			}
+			if why := x.escapesToState(o, g, 0); why != "" {
+				return false, why
+			}
+			notes = append(notes, "allocated at "+p.Pos(o.Pos())+" in "+shortFuncID(g))
+		case *ssa.Parameter:
+			i := -1
+			for k, q := range g.Params {
+				if q == o {
+					i = k
+				}
+			}
+			ok, why := x.paramFresh(g, i, depth+1, seen)
+			if !ok {
+				return false, why
+			}
+			notes = append(notes, why)
+		case *ssa.Call, *ssa.Extract:
+			call, ri := asCall(pv)
+			if call == nil {
+				return false, "receiver may be " + p.describe(pv)
+			}
+			if ri < 0 {
+				ri = 0
+			}
+			h := staticCallee(call.Common())
+			if h == nil || !funcHasBody(h) || !p.isWorkspaceFunc(h) {
+				return false, "receiver is the result of " + p.describe(call) + ", which is not a constructor of this repository"
+			}
+			if why := x.escapesToState(pv, g, 0); why != "" {
+				return false, why
+			}
+			nret := 0
+			for _, b := range h.Blocks {
+				r, isRet := b.Instrs[len(b.Instrs)-1].(*ssa.Return)
+				if !isRet || ri >= len(r.Results) || b == h.Recover {
+					continue
+				}
+				if isNilConst(r.Results[ri]) {
+					continue
+				}
+				nret++
+				ok, why := x.valueFresh(p.resolveResult(r.Results[ri], r), h, depth+1, seen)
+				if !ok {
+					return false, why
+				}
+				notes = append(notes, why)
+			}
+			if nret == 0 {
+				return false, "no result of " + shortFuncID(h) + " found"
+			}
+		default:
+			if isNilConst(pv) {
+				continue
+			}
+			return false, "receiver may be " + p.describe(pv) + " in " + shortFuncID(g)
+		}
+	}
+	if len(notes) == 0 {
+		return false, "no origin of " + p.describe(v) + " found"
+	}
+	return true, c10JoinNotes(notes)
+}
+
+// escapesToState: the pointer v (an allocation, a constructor result, a parameter) of g is stored
+// into memory that outlives the activation: a package-level variable or memory reached from a
+// method receiver. Returns "" when no such store is found.
+func (x *c10Fresh) escapesToState(v ssa.Value, g *ssa.Function, depth int) string {
+	p := x.p
+	if depth > 3 {
+		return ""
+	}
+	for _, r := range referrersOf(v) {
+		switch in := r.(type) {
+		case *ssa.Store:
+			if in.Val != v {
+				continue
+			}
+			if root, path, _ := stateRoot(g, in.Addr, false); root != "" {
+				return "the object is stored into " + root + path + " at " + p.IPos(in)
+			}
+		case *ssa.MapUpdate:
+			if in.Value != v && in.Key != v {
+				continue
+			}
+			if root, path, _ := stateRoot(g, in.Map, true); root != "" {
+				return "the object is stored into " + root + path + " at " + p.IPos(in)
+			}
+		case *ssa.MakeInterface, *ssa.ChangeType, *ssa.ChangeInterface, *ssa.Convert, *ssa.Phi:
+			if why := x.escapesToState(in.(ssa.Value), g, depth+1); why != "" {
+				return why
+			}
+		case ssa.CallInstruction:
+			h := staticCallee(in.Common())
+			if h == nil || !funcHasBody(h) || !p.isWorkspaceFunc(h) {
+				continue
+			}
+			for i, a := range in.Common().Args {
+				if a == v && i < len(h.Params) {
+					if why := x.escapesToState(h.Params[i], h, depth+1); why != "" {
+						return why
+					}
+				}
+			}
+		}
+	}
+	return ""
 }
